@@ -63,6 +63,7 @@ impl World {
 
     /// clean stop, then a new `AppState` over the same store; returns the open databases
     pub fn restart(&mut self) -> Vec<String> {
+        *self.store.fault.lock().unwrap() = None;
         if let Some(state) = self.state.take() {
             self.app = None;
             self.rt.block_on(state.shutdown());
@@ -73,6 +74,10 @@ impl World {
         self.state = Some(state);
         self.store.log.take();
         names
+    }
+
+    pub fn arm_fault(&mut self, k: usize) {
+        *self.store.fault.lock().unwrap() = Some((format!("{}/db_meta.cbor", self.cfg.primary), k));
     }
 
     /// The process dies: nothing is flushed, nothing is closed. A new `AppState` starts over a copy
